@@ -73,6 +73,7 @@ pub fn library() -> Vec<(&'static str, Option<Vec<Stmt>>)> {
             v
         }))),
         ("nn", Some(wrap("NN", vec![Stmt::Include { name: Expr::s("n_ren"), args: vec![] }, Stmt::Render { name: Expr::s("n_inc"), form: RenderForm::Plain, args: vec![("y".into(), Expr::s("ny"))] }]))),
+        ("dot.liquid", Some(wrap("D", pr()))),
         ("broken", None),
         // "missing" is deliberately absent
     ]
@@ -97,7 +98,7 @@ pub fn library_sources() -> (Vec<(String, String)>, BTreeMap<String, Partial>) {
 }
 
 pub fn grammar(max_n: usize) -> Grammar {
-    let all: Vec<&str> = library().iter().map(|(n, _)| *n).chain(["missing"]).collect();
+    let all: Vec<&str> = library().iter().map(|(n, _)| *n).filter(|n| *n != "dot.liquid").chain(["missing"]).collect();
     let mut leaves = Vec::new();
     for p in &all {
         let name = Expr::s(p);
@@ -115,6 +116,10 @@ pub fn grammar(max_n: usize) -> Grammar {
     for p in ["p_probe", "p_forloop", "p_assign", "broken"] {
         leaves.push(Stmt::Render { name: Expr::s(p), form: RenderForm::For(Src::Range(Expr::int(1), Expr::int(2)), "y".into()), args: vec![("x".into(), Expr::s("?"))] });
     }
+    // a partial stored as `dot.liquid`: render falls back to the extension, include does not
+    leaves.push(Stmt::Render { name: Expr::s("dot"), form: RenderForm::Plain, args: vec![("x".into(), Expr::s("?"))] });
+    leaves.push(Stmt::Include { name: Expr::s("dot"), args: vec![] });
+    leaves.push(Stmt::Include { name: Expr::s("dot.liquid"), args: vec![] });
     for v in ["pn", "pm"] {
         leaves.push(Stmt::Include { name: Expr::var(v), args: vec![] });
         leaves.push(Stmt::Render { name: Expr::var(v), form: RenderForm::Plain, args: vec![] });
